@@ -210,14 +210,13 @@ class Ctx:
 
     # -- snapshots (for nested exploration) ----------------------------------------
     def snapshot(self):
-        return (len(self.assumptions), dict(self.heap),
-                {k: dict(v) for k, v in self.store.items()}, list(self.printed), self.case)
+        return (len(self.assumptions), dict(self.heap), copy_store(self.store), list(self.printed), self.case)
 
     def restore(self, snap):
         n, heap, store, printed, case = snap
         del self.assumptions[n:]
         self.heap = dict(heap)
-        self.store = {k: dict(v) for k, v in store.items()}
+        self.store = copy_store(store)
         self.printed = list(printed)
         self.case = case
 
@@ -340,14 +339,13 @@ class Ctx:
 
     def snapshot_full(self, entry):
         n = entry[0]
-        return (list(self.assumptions[n:]), dict(self.heap),
-                {k: dict(v) for k, v in self.store.items()}, list(self.printed), self.case)
+        return (list(self.assumptions[n:]), dict(self.heap), copy_store(self.store), list(self.printed), self.case)
 
     def install(self, full):
         extra, heap, store, printed, case = full
         self.assumptions.extend(extra)
         self.heap = dict(heap)
-        self.store = {k: dict(v) for k, v in store.items()}
+        self.store = copy_store(store)
         self.printed = list(printed)
         self.case = case
 
@@ -358,7 +356,8 @@ class Ctx:
     def prove(self, name, goal, kind="post"):
         """Record obligation `name` (assumptions |= goal), try to discharge it now,
         then continue under the assumption that it holds."""
-        if isinstance(goal, bool):
+        structural = isinstance(goal, bool)
+        if structural:
             goal = z3.BoolVal(goal)
         goal_s = z3.simplify(goal)
         cnt = sum(1 for k in self.obligs if k[0] == name and k[1] == self.path_sig())
@@ -370,19 +369,33 @@ class Ctx:
                 ob.status, ob.detail = "unsat", "trivial"
             else:
                 t0 = time.time()
-                status, detail, backend = discharge(self.axioms + self.assumptions, goal, self.timeout_ms, name)
+                if structural:
+                    # a concrete (Python-level) fact about the execution that is false on this path:
+                    # it holds only if the path itself is infeasible
+                    r, _s = self._check([], 2000)
+                    status, detail, backend = ("unsat", "path infeasible", "z3-api") if r == z3.unsat else \
+                        ("sat", "structural clause is false on a path not shown infeasible", "structural")
+                else:
+                    status, detail, backend = discharge(self.axioms + self.assumptions, goal, self.timeout_ms, name)
                 ob.time = time.time() - t0
                 self.solver_time += ob.time
                 ob.status, ob.detail, ob.backend = status, detail, backend
-        if not z3.is_true(goal_s):
-            try:
-                self.assume(goal)
-            except PathAbort:
-                raise
+        if not z3.is_true(goal_s) and not (structural and z3.is_false(goal_s)):
+            self.assume(goal)
         return self.obligs[key]
 
     def covered(self, name):
         self.cover[name] = True
+
+
+def copy_store(store):
+    out = {}
+    for k, v in store.items():
+        d = dict(v)
+        if "attrs" in d:
+            d["attrs"] = dict(d["attrs"])
+        out[k] = d
+    return out
 
 
 def discharge(assumptions, goal, timeout_ms, name="ob"):
